@@ -722,6 +722,45 @@ func runC05(e *Engine, r *Report, tier string) {
 			}
 		})
 		r.Check(debitOK, "R5", ck+" amount", e.InstrPos(feeStore), "fee += "+incPar.Name()+" and the same "+incPar.Name()+" is debited from the payer", "the amount added to the fee is not the amount debited from the payer")
+		// same token: the record's fee contract equals the contract of the denom being paid (mismatch -> error)
+		okTok := false
+		for _, g := range GuardsOf(set) {
+			ci, ok := NormCond(g)
+			if !ok || ci.Op != "==" || ci.X == nil || ci.Y == nil {
+				continue
+			}
+			for _, pr := range [][2]ssa.Value{{ci.X, ci.Y}, {ci.Y, ci.X}} {
+				isRecContract := false
+				if n, st, ok := fieldNameOfLoad(pr[0]); ok && n == "Contract" && strings.HasSuffix(namedTypeName(st), "ERC20Token") {
+					isRecContract = true
+				}
+				if !isRecContract {
+					continue
+				}
+				// other side: contract looked up (family 0x60) from the paid coin's denom
+				res := e.Slice(pr[1], SliceOpts{MaxDepth: 6}, func(x ssa.Value) Verdict {
+					if c, ok := x.(*ssa.Call); ok && e.callDirectOp(c, cc, "60", "get") {
+						for _, a := range c.Common().Args {
+							in := e.Slice(a, SliceOpts{MaxDepth: 5}, func(y ssa.Value) Verdict {
+								if y == ssa.Value(incPar) {
+									return Accept
+								}
+								return Continue
+							})
+							if in.AllAccepted() {
+								return Accept
+							}
+						}
+						return Reject
+					}
+					return Continue
+				})
+				if res.AllAccepted() && BranchFailsClean(g.If, !g.Pol, func(i ssa.Instruction) bool { return e.EffectOf(i) != "" }) {
+					okTok = true
+				}
+			}
+		}
+		r.Check(okTok, "R5", ck+" same-token", e.InstrPos(set), "record.Fee.Contract == contract of the paid denom (else error) dominates the re-add", "the fee can be raised with a coin of a different token than the transfer's fee token: the payer is debited one token and the fee grows in another")
 	}
 
 	// ---------- R6 record field provenance ----------
